@@ -30,6 +30,7 @@ def run(rep):
     linchecks.validate_executions(rep, "C07", rep.tier)
     linchecks.slice_independence(rep, "C07", rep.tier)
     linchecks.superposition(rep, "C07", rep.tier)
+    linchecks.numeric_maps(rep, "C07", rep.tier)
     rep.assumptions += ["the category table of harness/dispatch.py (operator name -> category) is trusted; unknown operators "
                         "with input-dependent arguments are rejected",
                         "linearity is established per recorded execution shape, not for shapes never run (DESIGN.md 10)"]
